@@ -275,10 +275,11 @@ def releaseWrite (w : World) (o : Nat) : Except Panic World := do
 
 /-- `rt::park`; returns `true` if the thread actually parked (a schedule happened) -/
 def parkNow (w : World) : Except Panic World := do
-  match w.ths.activeT.state with
-  | .runnable true => pure (w.setThs (w.ths.modifyActive Thread.setRunnable))
-  | _ =>
-    let ths := w.ths.modifyActive fun th => { th.setBlocked with operation := none }
+  if w.ths.activeT.token then
+    -- a stored unpark is consumed instead of parking
+    pure (w.setThs (w.ths.modifyActive fun th => { th with token := false }))
+  else
+    let ths := w.ths.modifyActive fun th => { th.setParked with operation := none }
     let (e, _) ← ({ w.exec with threads := ths }).schedule w.panicking
     pure { w with exec := e }
 
@@ -312,7 +313,9 @@ def notifyEffect (w : World) (o : Nat) : Except Panic World := do
   let sy := w.ths.syncStore s.sync .rel
   let w := w.setObj o (.notify { s with sync := sy, notified := true })
   let act := w.ths.activeT
-  pure (w.forOthers (fun op => op.obj == o) fun th => th.unpark act)
+  -- the waiter is woken (this is not `Thread::unpark`: a thread that is not blocked gets no `park` token)
+  pure (w.forOthers (fun op => op.obj == o) fun th =>
+    ({ th with causality := th.causality.join act.causality }).wake)
 
 /-! ### channel -/
 
